@@ -280,7 +280,8 @@ package internals
 
 // Push appends one segment; Pop removes the last one. Both keep every earlier segment (pathkeep), which is
 // what lets a node prove that the path it was given is intact after its children ran.
-//@ spec pathkept(p) = len(*p) == old(len(*p)) && forall(i, 0, len(*p), (*p)[i] == old((*p)[i]))
+//@ spec pathfp(p) = locs(all(p), elems(*p), PSEQ(p), IARR(arrbase(*p)))
+//@ spec pathkept(p) = len(*p) == old(len(*p)) && IARR(arrbase(*p)) && forall(i, 0, len(*p), (*p)[i] == old((*p)[i]))
 //@ func (*PathBuilder).Push(p, path)
 //@   requires p != nil && path != nil
 //@   modifies all(p), elems(*p), PSEQ(p)
@@ -296,6 +297,7 @@ package internals
 //@   modifies all(p), PSEQ(p)
 //@   ghost_update PSEQ(p) := ppop(PSEQ(p))
 //@   ensures[C10] removed: old(len(*p)) > 0 ==> len(*p) == old(len(*p)) - 1
+//@   ensures arrbase(*p) == old(arrbase(*p))
 //@   ensures[C10] prefix_kept: forall(i, 0, len(*p), (*p)[i] == old((*p)[i]))
 
 // ---- tests
@@ -338,11 +340,14 @@ package internals
 // ---- data providers (C14): a provider is a read-only view of a record.
 //@ specfun dpval(Iface, String) Iface
 //@ specfun dpkey(Iface, reflect.StructField, String) String
+// wfdata: the value is plain data or a provider factory that was not consumed yet (abstract; see StructSchema.process)
+//@ specfun wfdata(Iface) Bool
 //@ iface DataProvider.GetByField(self, field, fallback)
 //@   requires self != nil
 //@   pure
 //@   ensures[C14] result1 == dpkey(self, field, fallback)
 //@   ensures[C14] result0 == dpval(self, result1)
+//@   ensures wfdata(result0)
 
 //@ iface DataProvider.Get(self, key)
 //@   requires self != nil
